@@ -23,6 +23,22 @@ def fresh(s):
     return (s + ' ')[:-1] if len(s) > 1 else s
 
 
+import enum
+
+
+class TagEnum(str, enum.Enum):
+    """tags given as members of a (str, Enum) class -- equal to their plain-string values, but str() of a member is not its value"""
+    A = 'a'
+    FINAL = 'final'
+
+
+def tag_object(name, variant):
+    """the tag object a measurement is created with: a fresh plain string, or (odd variant) the equal (str, Enum) member"""
+    if variant % 2 == 1 and name in ('a', 'final'):
+        return TagEnum(name)
+    return fresh(name)
+
+
 def ticks(x):
     t = int(round(float(x) * 8))
     assert t / 8 == float(x), f"time {x} is not a multiple of 1/8"
@@ -184,7 +200,7 @@ def build(spec, top, unrelated):
             reg = cmd.get('reg', 'own')
             src = {'own': circuit, 'top': top, 'unrelated': unrelated}[reg]
             o = DispersiveMeasure(qubit_index=cmd['q'], acquisition_strategy=src.get_acquisition_strategy(),
-                                  acquisition_tag=fresh(TAGS[cmd['tag']]), **kw)
+                                  acquisition_tag=tag_object(TAGS[cmd['tag']], cmd['q'] + len(added)), **kw)
         elif op == 'Wait':
             o = Wait(qubit_index=cmd['q'], duration_strategy=FixedDurationStrategy(duration=cmd['d'] / 4), **kw)
         elif op == 'Rx180':
